@@ -541,6 +541,15 @@ def clean(framer, frame):
 
 def garbage(rng, framer):
     hot = {'tcp': [0, 1, 6], 'rtu': [1, 3, 0x83], 'ascii': [58, 13, 10, 48, 49, 70, 32, 43, 45], 'binary': [0x7B, 0x7D]}[framer]
+    if framer == 'rtu' and rng.random() < 0.3:
+        # the head of a reply whose byte-count field announces a frame at or beyond the largest RTU frame
+        head = [rng.choice([1, 5, 17, 247]), rng.choice([1, 2, 3, 4, 20, 21, 23]), rng.choice([0xF8, 0xFA, 0xFB, 0xFC, 0xFD, 0xFE, 0xFF])]
+        return head + msggen.bytes_(rng, rng.choice([0, 1, 2, 5, 9, 30]), hot=hot * 3)
+    if framer == 'tcp' and rng.random() < 0.2:
+        # an MBAP header with an impossible length field, with and without bytes behind it
+        ln = rng.choice([0, 1, 2, 0xFFFF, 300])
+        return [rng.randrange(256), rng.randrange(256), 0, 0, ln >> 8, ln & 255, rng.choice([1, 5, 17]), 3] + \
+            msggen.bytes_(rng, rng.choice([0, 1, 4, 9]), hot=hot * 3)
     return msggen.bytes_(rng, rng.choice([1, 2, 3, 5, 8, 9, 12, 20, 40]), hot=hot * 3)
 
 
